@@ -553,9 +553,12 @@ fn funcs(r: &mut Runner, t: bool) {
             }
             func_case!(r, "usize,BitFieldVec<usize>,[u64;2],FuseLge3Shards", n, &c, keys = usize, W = usize, D = BitFieldVec<usize>, S = [u64; 2], E = FuseLge3Shards);
         }
-        if t {
+        if t || n == 150_000 {
+            // sharded builds of the non-default logics (two shards at 150 000 keys)
             func_case!(r, "usize,Box<[usize]>,[u64;2],Mwhc3Shards", n, &d, keys = usize, W = usize, D = Box<[usize]>, S = [u64; 2], E = Mwhc3Shards);
             func_case!(r, "usize,Box<[usize]>,[u64;2],FuseLge3FullSigs", n, &d, keys = usize, W = usize, D = Box<[usize]>, S = [u64; 2], E = FuseLge3FullSigs);
+            func_case!(r, "usize,Box<[usize]>,[u64;2],FuseLge3NoShards", n, &d, keys = usize, W = usize, D = Box<[usize]>, S = [u64; 2], E = FuseLge3NoShards);
+            func_case!(r, "usize,BitFieldVec<usize>,[u64;1],FuseLge3NoShards", n, &d, keys = usize, W = usize, D = BitFieldVec<usize>, S = [u64; 1], E = FuseLge3NoShards);
         }
     }
 }
